@@ -543,7 +543,10 @@ async fn bootstrap_scn(net: Net, seed: u64) {
     let mut rng = StdRng::seed_from_u64(seed);
     let my_id = rand_id(&mut rng);
     let variant = seed % 8;
-    let ncontacts: usize = match variant { 0 => 0, 1 => 1, 2 => 2, 3 => 8, 4 => 9, 5 => 30, 6 => 3, _ => 2 };
+    // one seed in sixteen: the only contact is a router whose name has no address of the node's family (an IPv6 literal for an
+    // IPv4 node): nothing can be asked, nobody answers, so bootstrapped() must not resolve (the worker idles and retries)
+    let unresolvable = seed % 16 == 15;
+    let ncontacts: usize = if unresolvable { 0 } else { match variant { 0 => 0, 1 => 1, 2 => 2, 3 => 8, 4 => 9, 5 => 30, 6 => 3, _ => 2 } };
     let mut nodes = oracle_universe(&mut rng, ncontacts.max(1) + 6, false, None);
     for (i, vn) in nodes.iter_mut().enumerate().skip(1) {
         if i < ncontacts {
@@ -558,7 +561,8 @@ async fn bootstrap_scn(net: Net, seed: u64) {
     let me: SocketAddr = v4(10, 0, 0, 1, 7000);
     let contacts: Vec<SocketAddr> = addrs[..ncontacts].to_vec();
     // variants 6 / 7: a contact given both as node and as router, duplicated routers
-    let routers: Vec<String> = match variant { 6 => vec![contacts[0].to_string(), contacts[1].to_string()], 7 => vec![contacts[0].to_string()], _ => vec![] };
+    let routers: Vec<String> = if unresolvable { vec!["[2001:db8::77]:6881".to_owned()] }
+                               else { match variant { 6 => vec![contacts[0].to_string(), contacts[1].to_string()], 7 => vec![contacts[0].to_string()], _ => vec![] } };
     // outage: the network is unreachable from the start for `outage` ms (plain-node configurations)
     let outage: u64 = match seed % 7 { 0 => 0, 1 => 30_000, 2 => 600_000, 3 => 1_500_000, 4 => 1_850_000 + (seed * 37_000) % 700_000, 5 => 2_400_000 + (seed * 91_000) % 900_000, _ => 7_200_000 };
     let outage = if ncontacts == 0 { 0 } else { outage };
